@@ -12,7 +12,7 @@ typedef std::string (*StepCheck)(const Regs &before, const Op &o, const Regs &af
 
 struct Snap { scpi_t ctx; std::vector<char> q; };
 inline void save(Inst &I, Snap &s) { s.ctx = I.ctx; s.q.assign(I.qbuf->p, I.qbuf->p + I.qbuf->n); }
-inline void restore(Inst &I, const Snap &s) { I.ctx = s.ctx; memcpy(I.qbuf->p, s.q.data(), s.q.size()); }
+inline void restore(Inst &I, const Snap &s) { vfTick(); I.ctx = s.ctx; memcpy(I.qbuf->p, s.q.data(), s.q.size()); }
 
 static const int kEv3[] = {0x20, 0x40, 0x200};            // representative bits of ESR/ESE (incl. bit 6 and a bit above 8)
 static const int kGrp3[] = {0x01, 0x40, 0x200};           // OPER/QUES groups
